@@ -494,6 +494,7 @@ func (i *interpreter) jsonAssign(n *jnode, t types.Type, addr *value) string {
 		}
 		s := load(t, addr).(structure)
 		fields := jsonFields(u)
+		firstErr := ""
 		for k, key := range n.keys {
 			var hit *jfield
 			for fi := range fields {
@@ -515,12 +516,23 @@ func (i *interpreter) jsonAssign(n *jnode, t types.Type, addr *value) string {
 			}
 			fv := s[hit.idx]
 			if msg := i.jsonAssign(n.vals[k], hit.typ, &fv); msg != "" {
-				return msg
+				// a value of the wrong JSON type: encoding/json skips the
+				// member, goes on and reports the first such error at the end
+				if !strings.HasPrefix(msg, "json: cannot unmarshal") {
+					return msg
+				}
+				if firstErr == "" {
+					firstErr = msg
+					if !strings.Contains(msg, "\x00field:") {
+						firstErr = msg + "\x00field:" + hit.name
+					}
+				}
+				continue
 			}
 			s[hit.idx] = fv
 		}
 		store(t, addr, s)
-		return ""
+		return firstErr
 	case *types.Slice:
 		if n.kind != 'a' {
 			return typeErr("non-array")
@@ -580,6 +592,21 @@ func (i *interpreter) jsonUnmarshal(text value, target value) value {
 		return i.newError("invalid character in JSON input")
 	}
 	if msg := i.jsonAssign(root, pt.Elem(), pv); msg != "" {
+		if strings.HasPrefix(msg, "json: cannot unmarshal") {
+			// a *json.UnmarshalTypeError, as the real decoder returns
+			field := ""
+			if k := strings.Index(msg, "\x00field:"); k >= 0 {
+				field = msg[k+7:]
+				msg = msg[:k]
+			}
+			if et := i.namedTypeOrNil("encoding/json", "UnmarshalTypeError"); et != nil {
+				es := zero(et).(structure)
+				es[i.fieldIndex(et, "Value")] = strings.TrimSuffix(strings.TrimPrefix(msg, "json: cannot unmarshal "), " into Go value")
+				es[i.fieldIndex(et, "Field")] = field
+				cell := value(es)
+				return iface{t: types.NewPointer(et), v: &cell}
+			}
+		}
 		return i.newError(msg)
 	}
 	return nilErr()
